@@ -556,6 +556,11 @@ class FastSimulation(object):
         self.mems = {}
         self.regs = {}
         self.internal_names = _PythonSanitizer('_fastsim_tmp_')
+        # a wire must not take a name the generated code uses itself
+        is_identifier = self.internal_names.extra_checks
+        self.internal_names.extra_checks = lambda s: (
+            is_identifier(s) and s not in ('d', 'regs', 'outs', 'mem_ws', 'int')
+            and not s.startswith('_fastsim_tmp_'))
         self._initialize(register_value_map, memory_value_map)
 
     def _initialize(self, register_value_map={}, memory_value_map={}):
